@@ -15,8 +15,8 @@ CLAIMED = {
 CLAIMED["C15"] = dict(
     engine="kv",
     technique="Coq proof (refinement of cachekv to a sorted-map overlay; merge-iterator state machine = overlay merge, by induction) + differential correspondence model vs store/cachekv + schedule-directed concurrent scenarios explained by a sequential order of the model",
-    text="Machine-checked: the cacheMergeIterator state machine transcribed from the code terminates and yields exactly the overlay of parent and cache items (sorted, duplicate-free, no deleted keys) for every pair of sequences and both directions; Get/Set/Delete/Write on cache nests of any depth refine the plain sorted map (parent untouched until Write, Write leaves parent = overlaid view and a clean wrapper). The model (incl. dirtyItems / memIterator mechanics) is tied to the code by running identical seeded programs on both every run and comparing every result.",
-    note="Trusted: Coq kernel, extraction, OCaml/Go drivers, tm-db MemDB as the base store. Partial: dirtyItems/unsorted/sorted-list mechanics are modelled and compared but their invariant is not yet proved; goroutine schedules: in the model each entry point is one atomic step (the mutex); the `lin` engine holds a reader open inside the parent read while a writer runs and requires the outcome to equal one of the two sequential orders of the model - directed schedules, not all interleavings; data-race freedom in the Go memory-model sense is not checked.",
+    text="Machine-checked: the cacheMergeIterator state machine transcribed from the code terminates and yields exactly the overlay of parent and cache items (sorted, duplicate-free, no deleted keys) for every pair of sequences and both directions; Get/Set/Delete/Write on cache nests of any depth refine the plain sorted map (parent untouched until Write, Write leaves parent = overlaid view and a clean wrapper); Iterator/ReverseIterator over any range on a nest of any depth return exactly the in-range items of the overlaid view, through the implementation's own unsorted/sorted cache structure (invariant dinv). The model (incl. dirtyItems / memIterator mechanics) is tied to the code by running identical seeded programs on both every run and comparing every result.",
+    note="Trusted: Coq kernel, extraction, OCaml/Go drivers, tm-db MemDB as the base store. The dirtyItems/unsortedCache/sortedCache mechanics are proved too (Store/DirtyProofs.v: the items handed to the merge iterator are exactly the dirty entries in range; iterating a cache nest of any depth yields exactly the in-range items of the overlaid view). Partial: goroutine schedules: in the model each entry point is one atomic step (the mutex); the `lin` engine holds a reader open inside the parent read while a writer runs and requires the outcome to equal one of the two sequential orders of the model - directed schedules, not all interleavings; data-race freedom in the Go memory-model sense is not checked.",
     design_ref="§6 C15")
 CLAIMED["C16"] = dict(
     engine="kv",
@@ -45,13 +45,13 @@ CLAIMED["C04"] = dict(
 CLAIMED["C05"] = dict(
     engine="app",
     technique='Coq proof (byte order of power-rank keys = (power, inverted address); injectivity; over all histories every index entry is a staked unjailed validator under the key of its current stake) + oracle comparing the emulated Tendermint set with top-N after every EndBlock + correspondence',
-    text="Proved: reverse iteration of the power index is power-descending/address-ascending and keys are injective. Checked on the implementation: every update batch is applicable and yields exactly the top-MaxValidators staked unjailed set; updates equal the model's.",
+    text="Proved: reverse iteration of the power index is power-descending/address-ascending and keys are injective; in every reachable state every index entry is a staked unjailed validator under the key of its current stake; every batch returned by UpdateTendermintValidators is applicable to the set told to Tendermint so far (no address twice, no negative power, removals only of members) and the module's record afterwards is that set with the batch applied. Checked on the implementation: the batch yields exactly the top-MaxValidators staked unjailed set on the emulated Tendermint set; updates equal the model's.",
     note="Trusted: Coq kernel, extraction, OCaml/Go drivers incl. the projection of raw store bytes to the compared state and the emulated Tendermint set; ed25519/amino/IAVL as used by the real code. The L1 model is a hand transcription of x/auth, x/pos, x/gov and the baseapp block cycle (single denomination); Go panics outside runTx are [None] (block aborts).",
     design_ref="§6 C05")
 CLAIMED["C06"] = dict(
     engine="app",
     technique='Coq proof over all histories (power index sound; every unstaking validator queued under its completion time; EndBlock leaves nobody whose completion time is reached; maturity never early) + transition/queue/index oracle on the implementation + correspondence',
-    text='Proved: jailed or non-staked validators are never indexed, jailing removes the entry, only queue slots due at the block time are processed. Checked after every op: index exactness, queue membership, legal transitions, exact and timely payout.',
+    text='Proved over all histories: the power index lists EXACTLY the staked unjailed validators under the key of their current stake (sound always; complete for well-formed addresses); every unstaking validator is queued under its completion time and every queued address is such a validator; EndBlock releases everybody whose time has come and nobody early; payout conserves. Checked after every op on the implementation: index exactness, queue membership, legal transitions, exact and timely payout.',
     note="Trusted: Coq kernel, extraction, OCaml/Go drivers incl. the projection of raw store bytes to the compared state and the emulated Tendermint set; ed25519/amino/IAVL as used by the real code. The L1 model is a hand transcription of x/auth, x/pos, x/gov and the baseapp block cycle (single denomination); Go panics outside runTx are [None] (block aborts).",
     design_ref="§6 C06")
 CLAIMED["C07"] = dict(
@@ -75,7 +75,7 @@ CLAIMED["C09"] = dict(
 CLAIMED["C10"] = dict(
     engine="app",
     technique='Coq proof (award queue emptied, one award mints exactly its amount, rewards conserve) + balance oracle at every BeginBlock + correspondence',
-    text='Proved: the award queue is empty after BeginBlock and an award mints exactly its amount. Checked at every BeginBlock: collector -> proposer (or pos account) in full, every award paid once.',
+    text='Proved: the whole fee-collector balance goes to the previous proposer (or stays in the pos account), the collector is empty afterwards, nobody else's balance or the supply moves; the award queue is empty after BeginBlock and an award mints exactly its amount. Checked at every BeginBlock on the implementation: collector -> proposer (or pos account) in full, every award paid once.',
     note="Trusted: Coq kernel, extraction, OCaml/Go drivers incl. the projection of raw store bytes to the compared state and the emulated Tendermint set; ed25519/amino/IAVL as used by the real code. The L1 model is a hand transcription of x/auth, x/pos, x/gov and the baseapp block cycle (single denomination); Go panics outside runTx are [None] (block aborts).",
     design_ref="§6 C10")
 CLAIMED["C11"] = dict(
@@ -87,7 +87,7 @@ CLAIMED["C11"] = dict(
 CLAIMED["C17"] = dict(
     engine="app",
     technique='Coq proof (parameter change implies ACL owner, changes that parameter alone; DAO moves need the DAO owner, exact amount within balance) + oracle over the raw parameter store + correspondence',
-    text='Proved on the model; the oracle diffs every parameter of every subspace before/after each op on the implementation.',
+    text='Proved: over the whole block cycle no operation changes any parameter, the ACL, the DAO owner or the upgrade plan except a delivered change-parameter / upgrade transaction sent by the ACL owner of that key (C17_only_the_owners_tx_changes_parameters); such a change alters that parameter alone; DAO moves need the DAO owner, exact amount within balance. The oracle diffs every parameter of every subspace before/after each op on the implementation.',
     note="Trusted: Coq kernel, extraction, OCaml/Go drivers incl. the projection of raw store bytes to the compared state and the emulated Tendermint set; ed25519/amino/IAVL as used by the real code. The L1 model is a hand transcription of x/auth, x/pos, x/gov and the baseapp block cycle (single denomination); Go panics outside runTx are [None] (block aborts).",
     design_ref="§6 C17")
 CLAIMED["C12"] = dict(
